@@ -846,5 +846,15 @@ V('C16', 'observations-class-level-default-and-instance-dict', 'silent', '', 'ob
   ('src/pyhf/workspace.py', "    valid_joins: ClassVar[list[str]] = ['none', 'outer', 'left outer', 'right outer']\n", "    valid_joins: ClassVar[list[str]] = ['none', 'outer', 'left outer', 'right outer']\n    observations: dict = {}\n"))
 V('C16', 'data-accumulates-into-first-observation', 'fire', 'C16.R7', "data() concatenates in place starting from the first channel's stored observation",
   ('src/pyhf/workspace.py', '                operator.iadd, (self.observations[c] for c in model.config.channels), []\n', '                operator.iadd, (self.observations[c] for c in model.config.channels)\n'))
+V('C20', 'lumi-placeholders-sized-tuples', 'fire', 'C20.R5', "the luminosity requirement's unset markers become one-element tuples holding None",
+  ('src/pyhf/modifiers/lumi.py', "        'inits': None,  # lumi\n        'bounds': None,  # (0, 10*lumi)\n        'fixed': False,\n        'auxdata': None,  # lumi\n        'sigmas': None,  # lumi * lumirelerror\n", "        'inits': (None,),  # lumi\n        'bounds': (None,),  # (0, 10*lumi)\n        'fixed': False,\n        'auxdata': (None,),  # lumi\n        'sigmas': (None,),  # lumi * lumirelerror\n"))
+V('C20', 'lumi-placeholders-through-a-name', 'silent', '', "the luminosity requirement's unset markers spelled through a local name",
+  ('src/pyhf/modifiers/lumi.py', 'def required_parset(sample_data, modifier_data):\n    return {\n', 'def required_parset(sample_data, modifier_data):\n    unset = None\n    return {\n'),
+  ('src/pyhf/modifiers/lumi.py', "        'inits': None,  # lumi\n        'bounds': None,  # (0, 10*lumi)\n        'fixed': False,\n        'auxdata': None,  # lumi\n        'sigmas': None,  # lumi * lumirelerror\n", "        'inits': unset,  # lumi\n        'bounds': unset,  # (0, 10*lumi)\n        'fixed': False,\n        'auxdata': unset,  # lumi\n        'sigmas': unset,  # lumi * lumirelerror\n"))
+V('C20', 'schema-accepts-tuples-as-arrays', 'fire', 'C20.R7', "the schema's array type accepts tuples; the merge takes tuples for defaults",
+  ('src/pyhf/schema/validator.py', '    return isinstance(instance, (list, *tensor.array_types))\n', '    return isinstance(instance, (list, tuple, *tensor.array_types))\n'))
+V('C20', 'schema-accepts-tuples-and-merge-checks-user-tuples', 'silent', '', "the schema's array type accepts tuples and the merge length-checks every user-supplied sequence",
+  ('src/pyhf/schema/validator.py', '    return isinstance(instance, (list, *tensor.array_types))\n', '    return isinstance(instance, (list, tuple, *tensor.array_types))\n'),
+  ('src/pyhf/parameters/utils.py', '            if isinstance(v, tuple):\n                v = list(v)\n', "            if k in paramset_user_configs and isinstance(v, (list, tuple)) and default_v and default_v != 'undefined' and len(v) != len(default_v):\n                raise exceptions.InvalidModel(\n                    f'Incorrect number of values ({len(v)}) for {k} were configured by you, expected {len(default_v)}.'\n                )\n            if isinstance(v, tuple):\n                v = list(v)\n"))
 V("C13", "code4-exponent-mask-strict", "fire", "C13.R3", "code 4 takes exponent 1 (a constant) exactly at |alpha| = alpha0",
   ("src/pyhf/interpolators/code4.py", "            exponents >= self.__alpha0, exponents, self.ones", "            exponents > self.__alpha0, exponents, self.ones"))
